@@ -125,7 +125,30 @@ func runLBDist(x *X) {
 	nHist := c.Intn(6, "nhist")
 	freshPool := nHist == 0
 	for i := 0; i < nHist && !x.dead; i++ {
-		switch c.Pick([]int{3, 3, 3, 2, 3, 3, 2}, "hist") {
+		switch c.Pick([]int{3, 3, 3, 2, 3, 3, 2, 2}, "hist") {
+		case 7: // two members leave and come back in the other order (a rolling restart)
+			if len(members) < 3 {
+				continue
+			}
+			i1 := c.Intn(len(members), "rr1")
+			m1 := members[i1]
+			members = append(members[:i1:i1], members[i1+1:]...)
+			i2 := c.Intn(len(members), "rr2")
+			m2 := members[i2]
+			members = append(members[:i2:i2], members[i2+1:]...)
+			x.Do("restart", func() {
+				h.lb.RemoveBackend(m1.name)
+				h.lb.RemoveBackend(m2.name)
+				for _, m := range []member{m2, m1} {
+					if err := h.lb.AddBackend(config.BackendConfig{Name: m.name, Address: "http://" + m.host, Weight: m.weight}); err != nil {
+						panic(err)
+					}
+				}
+			}, onErr)
+			members = append(members, m2, m1)
+			delete(ejectedUntil, m1.name)
+			delete(ejectedUntil, m2.name)
+			hist = append(hist, "remove("+m1.name+","+m2.name+")+add("+m2.name+","+m1.name+")")
 		case 6: // responses that break after their head was forwarded (ReverseProxy aborts the handler)
 			k := 1 + c.Intn(3, "aborts")
 			for j := 0; j < k && !x.dead; j++ {
